@@ -63,7 +63,10 @@ def cases(txt):
         elif l.startswith("SIM "):
             cur["cur"] = l.split()[1]
             cur["sims"][cur["cur"]] = []
-        elif l[:2] in ("V ", "X ") or l == "T" or l.startswith("T "):
+        elif l == "BSIM":
+            cur["cur"] = "machine"
+            cur["sims"]["machine"] = []
+        elif l[:2] in ("V ", "X ") or l[:3] in ("BV ", "BX ") or l in ("T", "BT") or l.startswith("T "):
             if cur["cur"] is not None:
                 cur["sims"][cur["cur"]].append(l)
         elif l.split(" ")[0] in MACH:
@@ -108,13 +111,26 @@ def compare_case(x, y):
         out.append(("model-machine-not-wf", {"source": src, "model": y["WF"]}))
     for k, xs in x["sims"].items():
         ys = y["sims"].get(k, [])
-        stims = [l for l in xs if l.startswith("V ")]
-        for t, (p, q) in enumerate(zip([l for l in xs if l.startswith("X ")], [l for l in ys if l.startswith("X ")])):
-            if q in ("X undefined", "X noentry"):
+        obs = lambda ls: [l for l in ls if l.startswith("X ") or l.startswith("BX ")]
+        tick = -1
+        xi = iter(obs(ys))
+        stims = []
+        for l in xs:
+            if l.startswith("V ") or l.startswith("BV "):
+                tick += 1
+                stims.append(l)
+                continue
+            if not (l.startswith("X ") or l.startswith("BX ")):
+                continue
+            q = next(xi, None)
+            if q is None or q.split()[1] in ("undefined", "noentry"):
                 break
-            if p != q:
-                out.append(("semantic", {"source": src, "cp": k, "tick": t, "stims": stims[:t + 1], "impl": p, "ref": q,
-                                         "entryfirst": fact(y, "entryfirst"), "litjump": fact(y, "litjump")}))
+            if l != q:
+                d = {"source": src, "cp": k, "tick": tick, "stims": stims, "impl": l, "ref": q,
+                     "entryfirst": fact(y, "entryfirst"), "litjump": fact(y, "litjump")}
+                if k == "machine":
+                    d["what_differs"] = "external ports" if l.startswith("BX ") else "a processor's state inside the whole-machine simulation"
+                out.append(("semantic", d))
                 break
     return out, "compared"
 
@@ -159,8 +175,10 @@ def analyse(impl, model):
             if how == "compared-class-differs":
                 st["class_differs"] = st.get("class_differs", 0) + 1
         for k, xs in y["sims"].items():
-            n = len([l for l in xs if l.startswith("X ")])
-            u = len([l for l in xs if l in ("X undefined", "X noentry")])
+            n = len([l for l in xs if l.startswith("X ") or l.startswith("BX ")])
+            u = len([l for l in xs if l in ("X undefined", "X noentry", "BX undefined", "BX noentry")])
+            if k == "machine":
+                st["machine_ticks"] = st.get("machine_ticks", 0) + len([l for l in xs if l.startswith("BX ")])
             st["ticks"] += n - u
             st["ticks_ref_undefined"] += u
         finds += fs
@@ -173,7 +191,7 @@ def write_replay_input(path, src, stims=None):
         for l in src.rstrip("\n").split("\n"):
             f.write("S " + l + "\n")
         for cp, vs in (stims or {}).items():
-            f.write("SIM %s\n" % cp)
+            f.write("BSIM\n" if cp == "machine" else "SIM %s\n" % cp)
             for v in vs:
                 f.write(v + "\n")
 
@@ -267,6 +285,7 @@ def run(rep):
         "traces_validated_against_impl": tot["compared"],
         "simulated_ticks_compared_with_reference_interpreter": tot["ticks"],
         "ticks_where_reference_has_no_meaning": tot["ticks_ref_undefined"],
+        "whole_machine_ticks_compared": tot.get("machine_ticks", 0),
         "tree_under_test": mode or "?",
         "input_distribution": {"kinds": tot["kinds"], "tool_result_ok": tot["ok"], "tool_error_classes": tot["err"],
                                "processors_per_machine": tot["ncp"], "register_sizes": tot["rsize"],
